@@ -40,7 +40,7 @@ DEFS = {"dead": "lambda x: " + DEAD}
 
 # ---- purge of finished jobs ------------------------------------------------------------------
 contract(
-    F + "_clear_dead_jobs", "C20", params={}, globals=G, config=CFG, externals=EXT, defs=DEFS,
+    F + "_clear_dead_jobs", "C20", emits=[], params={}, globals=G, config=CFG, externals=EXT, defs=DEFS,
     inline=["get_task"],
     locals={"to_remove": Set(Int), "alive": TASKS},
     requires={"table": TABLE},
@@ -64,7 +64,7 @@ contract(
 
 # ---- numbering -------------------------------------------------------------------------------
 contract(
-    F + "get_next_job_number", "C20", params={}, globals=dict(G, BOUND=Int), config=CFG, externals=EXT, defs=DEFS,
+    F + "get_next_job_number", "C20", emits=[], params={}, globals=dict(G, BOUND=Int), config=CFG, externals=EXT, defs=DEFS,
     returns=Int,
     requires={"table": TABLE, "finite": FINITE},
     modifies=["TASKS", "JOBS"],
@@ -99,7 +99,7 @@ G2 = dict(G, XSH=XSHT)
 
 # ---- registration ----------------------------------------------------------------------------
 contract(
-    F + "add_job", "C20", params=dict(info=JOB), globals=dict(G2, BOUND=Int), config=CFG, externals=EXT2, defs=DEFS,
+    F + "add_job", "C20", emits=[], params=dict(info=JOB), globals=dict(G2, BOUND=Int), config=CFG, externals=EXT2, defs=DEFS,
     requires={"table": TABLE, "finite": FINITE, "jobs-well-formed": JOBSWF},
     modifies=["TASKS", "JOBS", "info"],
     snapshots={"numbered": "get_next_job_number"},
@@ -129,7 +129,7 @@ EXT3 = dict(EXT2)
 EXT3["is_py_int_literal"] = Ext(ret=Bool, pure=True, uf="is_py_int_literal", note="ghost: int(s) accepts the string")
 
 contract(
-    F + "resume_job", "C20", params=dict(args=List(Str), wording=Str), globals=G2, config=CFG, externals=EXT3, defs=DEFS,
+    F + "resume_job", "C20", emits=['resume'], params=dict(args=List(Str), wording=Str), globals=G2, config=CFG, externals=EXT3, defs=DEFS,
     requires={"table": TABLE, "jobs-well-formed": JOBSWF},
     modifies=["TASKS", "JOBS"],
     snapshots={"purged": "_clear_dead_jobs"},
@@ -146,12 +146,126 @@ contract(
         "other-jobs-untouched": 'implies(result is None, forall(lambda x: (x in JOBS) == at("purged", x in JOBS) and '
                                 'implies(x in JOBS and x != TASKS[0], JOBS[x] == at("purged", JOBS[x]))))',
         "resumed-exactly-once": 'len(log("resume")) == (1 if result is None else 0)',
+        "nonempty-on-success": "implies(result is None, len(TASKS) > 0 and TASKS[0] in JOBS)",
         "table": TABLE,
         "jobs-well-formed": JOBSWF,
     },
     from_property="`fg`, `bg` and `disown` with no argument, `+`, `-` or a number select the documented job, or report an error without altering the table",
 )
 
+
+EXT3["_continue"] = Ext(event="continue", log="const", note="SIGCONT to the job's process group: unverified")
+ELIG = {"eligible": "lambda t: not JOBS[t]['bg'] and JOBS[t]['status'] == 'running'"}
+
+contract(
+    F + "bg", "C20", emits=['resume', 'continue'], params=dict(args=List(Str)), globals=G2, config=CFG, externals=EXT3, defs=DEFS,
+    requires={"table": TABLE, "jobs-well-formed": JOBSWF},
+    modifies=["TASKS", "JOBS"], inline=["get_task"],
+    returns=Union(NoneT, Tuple(Str, Str)),
+    ensures={
+        "resumed-job-runs-in-background": "implies(result is None, JOBS[TASKS[0]]['bg'] and JOBS[TASKS[0]]['status'] == 'running' and len(log('continue')) == 1)",
+        "error-is-passed-through": "implies(result is not None, len(log('continue')) == 0)",
+        "table": TABLE, "jobs-well-formed": JOBSWF,
+    },
+    notes="decorated with @use_main_jobs() (see its contract): the body runs on the main table",
+    from_property="`fg`, `bg` ... select the documented job, or report an error without altering the table",
+)
+
+contract(
+    F + "get_next_task", "C20", emits=[], params={}, globals=G2, config=CFG, externals=EXT3, defs=dict(DEFS, **ELIG),
+    requires={"table": TABLE, "jobs-well-formed": JOBSWF},
+    modifies=["TASKS", "JOBS"], inline=["get_task"],
+    snapshots={"purged": "_clear_dead_jobs"},
+    locals={"selected_task": Union(NoneT, Int)},
+    loops={"for#1": dict(invariant={"none-eligible-so-far": "forall(lambda j: not eligible(TASKS[j]), 0, _i)",
+                                    "nothing-selected-yet": "selected_task is None"})},
+    ensures={
+        "none-eligible": 'implies(result is None, forall(lambda j: not eligible(TASKS[j]), 0, len(TASKS)) and TASKS == at("purged", TASKS))',
+        "first-eligible-moves-to-front": 'implies(result is not None, eligible(TASKS[0]) and exists(lambda k: at("purged", TASKS)[k] == TASKS[0] and '
+            'forall(lambda j: not at("purged", eligible(TASKS[j])), 0, k) and '
+            'TASKS == [TASKS[0]] + at("purged", TASKS)[:k] + at("purged", TASKS)[k + 1:], 0, len(at("purged", TASKS))))',
+        "records-untouched": 'JOBS == at("purged", JOBS)',
+        "table": TABLE,
+    },
+    from_property="the most-recently-used order is always a permutation of exactly the live jobs",
+)
+
+PIDSWF = "forall(lambda x: implies(x in JOBS, 'pids' in JOBS[x] and len(JOBS[x]['pids']) >= 1))"
+TID = "(job_ids[0] if len(job_ids) == 1 else old(TASKS)[0])"
+contract(
+    F + "disown_fn", "C20", emits=['continue'], params=dict(job_ids=List(Int), force_auto_continue=Bool), globals=G2, config=CFG, externals=EXT3, defs=DEFS,
+    requires={"table": TABLE, "jobs-well-formed": JOBSWF, "jobs-have-pids": PIDSWF,
+              "no-argument-or-one-number": "len(job_ids) <= 1"},
+    modifies=["TASKS", "JOBS"], inline=["get_task"],
+    locals={"messages": List(Str)},
+    returns=Union(NoneT, Str, Tuple(Str, Str)),
+    ensures={
+        "empty-table-is-an-error": "implies(len(old(TASKS)) == 0, TASKS == old(TASKS) and JOBS == old(JOBS) and result is not None)",
+        "unknown-id-is-an-error-and-changes-nothing": "implies(len(old(TASKS)) > 0 and %s not in old(JOBS), TASKS == old(TASKS) and JOBS == old(JOBS))" % TID,
+        "removes-exactly-that-job": "implies(len(old(TASKS)) > 0 and %s in old(JOBS), %s not in JOBS and cnt(TASKS, %s) == 0 and "
+                                    "forall(lambda x: implies(x != %s, (x in JOBS) == old(x in JOBS) and cnt(TASKS, x) == old(cnt(TASKS, x)) and "
+                                    "implies(x in JOBS, JOBS[x] == old(JOBS[x])))))" % (TID, TID, TID, TID),
+        "keeps-the-order-of-the-rest": "implies(len(old(TASKS)) > 0 and %s in old(JOBS), exists(lambda k: old(TASKS)[k] == %s and "
+                                       "TASKS == old(TASKS)[:k] + old(TASKS)[k + 1:], 0, len(old(TASKS))))" % (TID, TID),
+        "table": TABLE,
+    },
+    assumptions=["disown with several ids at once is outside the statement ('no argument ... or a number'): requires len(job_ids) <= 1",
+                 "jobs are registered with at least one pid (specs._run_command_pipeline)"],
+    from_property="`disown` with no argument ... or a number select the documented job, or report an error without altering the table",
+)
+
+# ---- thread view ----------------------------------------------------------------------------------
+TL = Obj("TL", tasks=("optional", TASKS), jobs=("optional", JOBS))
+XSH_ALL = Obj("XSH", all_jobs=JOBS)
+GT = {"_jobs_thread_local": TL, "_tasks_main": TASKS, "XSH": XSH_ALL}
+ON_MAIN = {"on_main_thread": Ext(ret=Bool, pure=True, note="ghost: which thread is running")}
+
+contract(
+    F + "get_tasks", "C20", params={}, globals=GT, externals=ON_MAIN,
+    ensures={
+        "keeps-an-existing-view": "implies(not old(_jobs_thread_local.__missing_tasks), result is old_ref(_jobs_thread_local.tasks))",
+        "main-thread-sees-the-main-order": "implies(old(_jobs_thread_local.__missing_tasks) and on_main_thread(), result is _tasks_main)",
+        "other-threads-get-a-private-empty-order": "implies(old(_jobs_thread_local.__missing_tasks) and not on_main_thread(), "
+                                                   "result is not _tasks_main and len(result) == 0)",
+        "view-is-remembered": "not _jobs_thread_local.__missing_tasks and result is _jobs_thread_local.tasks",
+    },
+    from_property="issued from the main thread or from an alias thread",
+)
+contract(
+    F + "get_jobs", "C20", params={}, globals=GT, externals=ON_MAIN,
+    ensures={
+        "keeps-an-existing-view": "implies(not old(_jobs_thread_local.__missing_jobs), result is old_ref(_jobs_thread_local.jobs))",
+        "main-thread-sees-the-main-table": "implies(old(_jobs_thread_local.__missing_jobs) and on_main_thread(), result is XSH.all_jobs)",
+        "other-threads-get-a-private-table": "implies(old(_jobs_thread_local.__missing_jobs) and not on_main_thread(), result is not XSH.all_jobs)",
+        "view-is-remembered": "not _jobs_thread_local.__missing_jobs and result is _jobs_thread_local.jobs",
+    },
+    from_property="issued from the main thread or from an alias thread",
+)
+
+
+def _umj_yield(R, frame, val, ynode):
+    """with-contract: the body of the `with` may do anything to the tables' contents but does not
+    rebind the thread-local attributes; it may also raise (the generator is then resumed by throw)"""
+    from pyvc.core import PyRaise, Exc, mk_none
+    if R.choose(["resume", "throw"], "yield") == "throw":
+        raise PyRaise(Exc("BaseException", exact=False, tag="exception raised by the with-body"))
+    return mk_none()
+
+
+contract(
+    F + "use_main_jobs", "C20", params={}, globals=GT,
+    externals={"get_tasks": Ext(model=lambda R, a, k, n, f, r: R.getattr(R.globals_["_jobs_thread_local"], "tasks")),
+               "get_jobs": Ext(model=lambda R, a, k, n, f, r: R.getattr(R.globals_["_jobs_thread_local"], "jobs"))},
+    requires={"view-initialised": "not _jobs_thread_local.__missing_tasks and not _jobs_thread_local.__missing_jobs"},
+    hooks={"yield": _umj_yield},
+    asserts=[dict(before="yield", label="body-runs-on-the-main-table",
+                  clause="_jobs_thread_local.tasks is _tasks_main and _jobs_thread_local.jobs is XSH.all_jobs")],
+    raises={"BaseException+": True},
+    ensures={"previous-view-restored": "_jobs_thread_local.tasks is old_ref(_jobs_thread_local.tasks) and _jobs_thread_local.jobs is old_ref(_jobs_thread_local.jobs)"},
+    ensures_exc={"previous-view-restored": "_jobs_thread_local.tasks is old_ref(_jobs_thread_local.tasks) and _jobs_thread_local.jobs is old_ref(_jobs_thread_local.jobs)"},
+    assumptions=["the with-body does not rebind _jobs_thread_local.tasks/.jobs (only this function and get_tasks/get_jobs do)"],
+    from_property="issued from the main thread or from an alias thread (jobs, bg, disown run on the main table whatever the calling thread)",
+)
 
 # ---- native world for replay / bounded stand-in ---------------------------------------------------
 class FakeProc:
@@ -256,6 +370,8 @@ def _jobs_harness(fname, argnames=()):
         XSH.env = {"XONSH_INTERACTIVE": False, "AUTO_CONTINUE": inputs.get("auto_continue", False)}
         xj._jobs_thread_local.tasks = tasks
         xj._jobs_thread_local.jobs = jobs
+        saved_main = (xj._tasks_main, XSH.all_jobs)
+        xj._tasks_main, XSH.all_jobs = tasks, jobs  # @use_main_jobs() functions switch to these
         out = {"__snapshots__": snaps, "__logs__": logs}
         try:
             out["__result__"] = saved.get(fname, getattr(xj, fname))(*[inputs[a] for a in argnames]) if fname in saved else getattr(xj, fname)(*[inputs[a] for a in argnames])
@@ -265,6 +381,7 @@ def _jobs_harness(fname, argnames=()):
             for n, f in saved.items():
                 setattr(xj, n, f)
             XSH.env = saved_env
+            xj._tasks_main, XSH.all_jobs = saved_main
             del xj._jobs_thread_local.tasks
             del xj._jobs_thread_local.jobs
         return out
@@ -338,6 +455,19 @@ for _c in BY_PROP["C20"]:
     elif q == "resume_job":
         _c.replay = _jobs_harness("resume_job", ("args", "wording"))
         _c.native_domain = _jobs_domain(_ARGS)
+    elif q == "bg":
+        _c.replay = _jobs_harness("bg", ("args",))
+        _c.native_domain = _jobs_domain([{"args": a["args"]} for a in _ARGS])
+    elif q == "get_next_task":
+        _c.replay = _jobs_harness("get_next_task")
+        _c.native_domain = _jobs_domain([{}])
+    elif q == "disown_fn":
+        _c.replay = _jobs_harness("disown_fn", ("job_ids", "force_auto_continue"))
+        _c.native_domain = _jobs_domain([{"job_ids": j, "force_auto_continue": f, "auto_continue": False} for j in ([], [1], [2], [3], [5]) for f in (False, True)])
+    elif q in ("get_tasks", "get_jobs", "use_main_jobs"):
+        _c.native_env = None
+        _c.native_prepare = None
+        _c.replay_extras = None
     elif q == "add_job":
         _c.replay = _jobs_harness("add_job", ("info",))
         _c.native_domain = _jobs_domain([{"info": {"obj": {"__opaque__": "pnew"}, "bg": b, "status": "suspended", "pids": [9],
